@@ -120,8 +120,7 @@ RECURSIVE NegVariants(_)
 NegVariants(t) == {Neg(t)} \cup
    (IF t.k = "bin" THEN { Bin(t.op, l, t.xs[2]) : l \in NegVariants(t.xs[1]) } \cup { Bin(t.op, t.xs[1], r) : r \in NegVariants(t.xs[2]) }
     ELSE {})
-PlainTrees == UNION { TreesN(n) : n \in 1..MaxOperands }
-ExprTrees == PlainTrees \cup (IF WithNeg THEN UNION { NegVariants(t) : t \in PlainTrees } \cup { Neg(Neg(Num(v))) : v \in Nums } ELSE {})
+\* (the set of all trees is never built as one value: InitCalc / PrintStep enumerate it piecewise)
 
 RECURSIVE Eval(_)
 Apply(o, x, y) == CASE o = "+" -> x + y [] o = "-" -> x - y [] o = "*" -> x * y
